@@ -173,6 +173,19 @@ func genSchema(r *rand.Rand) *gSchema {
 			if genCommon {
 				t = named(pick(r, []int{10, 11, 12, 30}))
 			}
+			if !genCommon && chance(r, 0.3) {
+				// list-typed arguments: [T], [T!], [[T]], each possibly non-null
+				if chance(r, 0.3) {
+					in := t
+					t = gTy{kind: 'N', of: &in}
+				}
+				in := t
+				t = gTy{kind: 'l', of: &in}
+				if chance(r, 0.2) {
+					in2 := t
+					t = gTy{kind: 'l', of: &in2}
+				}
+			}
 			if chance(r, 0.3) {
 				in := t
 				t = gTy{kind: 'N', of: &in}
@@ -499,9 +512,45 @@ func (d *docGen) id() sx.S {
 	return sx.A(d.nextID)
 }
 
-func (d *docGen) literal(t gTy) sx.S {
+func sameTy(a, b gTy) bool {
+	if a.kind != b.kind {
+		return false
+	}
+	if a.kind == 'n' {
+		return a.id == b.id
+	}
+	return sameTy(*a.of, *b.of)
+}
+
+func (d *docGen) literal(t gTy) sx.S { return d.lit(t, true) }
+
+// lit writes a value of type t; withVars lets list elements be variables (not inside variable defaults)
+func (d *docGen) lit(t gTy, withVars bool) sx.S {
 	r := d.r
-	tt := d.s.byID[t.base()]
+	switch t.kind {
+	case 'N':
+		return d.lit(*t.of, withVars)
+	case 'l':
+		d.feats["list-literal"] = true
+		out := []sx.S{"l"}
+		for i, n := 0, r.Intn(4); i < n; i++ {
+			switch {
+			case withVars && chance(r, 0.3):
+				d.feats["variable-in-list-literal"] = true
+				out = append(out, d.useVar(*t.of))
+			case t.of.kind != 'N' && chance(r, 0.1):
+				out = append(out, "null")
+			default:
+				out = append(out, d.lit(*t.of, withVars))
+			}
+		}
+		return out
+	}
+	return scalarValue(r, d.s, t)
+}
+
+func scalarValue(r *rand.Rand, s *gSchema, t gTy) sx.S {
+	tt := s.byID[t.base()]
 	switch {
 	case tt.kind == "enum":
 		return sx.L("e", sx.A(pick(r, tt.vals)))
@@ -515,17 +564,37 @@ func (d *docGen) literal(t gTy) sx.S {
 	return "null"
 }
 
+// wrongKind writes a literal whose kind the declared type cannot take: a list or an object for a
+// named type, an enum value for anything that is not an enum, a scalar for a list type
+func (d *docGen) wrongKind(t gTy) sx.S {
+	r := d.r
+	inner := t
+	if inner.kind == 'N' {
+		inner = *inner.of
+	}
+	isEnum := inner.kind == 'n' && d.s.byID[inner.id].kind == "enum"
+	switch x := r.Intn(4); {
+	case x == 0 && !isEnum:
+		return sx.L("e", sx.A(1+r.Intn(3)))
+	case x == 1:
+		return sx.L("o", sx.L(sx.A(1), sx.L("i", sx.A(r.Intn(5)))))
+	case inner.kind == 'l':
+		return scalarValue(r, d.s, t)
+	}
+	return sx.L("l", scalarValue(r, d.s, t))
+}
+
 func (d *docGen) useVar(t gTy) sx.S {
 	r := d.r
 	d.feats["variable"] = true
 	for _, v := range d.vars {
-		if v.ty.base() == t.base() && v.ty.kind == t.kind && chance(r, 0.5) {
+		if sameTy(v.ty, t) && chance(r, 0.5) {
 			return sx.L("v", sx.A(v.name))
 		}
 	}
 	v := gVar{name: len(d.vars) + 1, ty: t, dflt: "-"}
 	if chance(r, 0.4) {
-		v.dflt = d.literal(t)
+		v.dflt = d.lit(t, false)
 		d.feats["var-default"] = true
 	}
 	d.vars = append(d.vars, v)
@@ -672,9 +741,13 @@ func (d *docGen) sels(container int, depth int) []sx.S {
 				req := a.ty.kind == 'N'
 				if (req && (genCommon || chance(r, 0.97))) || (!req && chance(r, d.p.pArgs)) {
 					var v sx.S
-					if chance(r, 0.35) {
+					switch {
+					case chance(r, 0.35):
 						v = d.useVar(a.ty)
-					} else {
+					case !genCommon && d.p.defect == "" && chance(r, 0.04):
+						v = d.wrongKind(a.ty)
+						d.feats["wrong-kind-literal"] = true
+					default:
 						v = d.literal(a.ty)
 					}
 					args = append(args, sx.L("a", sx.A(a.name), v))
@@ -804,18 +877,21 @@ func dupKeys(sels []sx.S, frags map[string][]sx.S) bool {
 }
 
 func varValue(r *rand.Rand, s *gSchema, t gTy) sx.S {
-	tt := s.byID[t.base()]
-	switch {
-	case tt.kind == "enum":
-		return sx.L("e", sx.A(pick(r, tt.vals)))
-	case tt.leaf == "int":
-		return sx.L("i", sx.A(r.Intn(200)-100))
-	case tt.leaf == "string", tt.leaf == "id":
-		return sx.L("s", sx.A(r.Intn(9)))
-	case tt.leaf == "bool":
-		return sx.L("b", sx.A(r.Intn(2)))
+	switch t.kind {
+	case 'N':
+		return varValue(r, s, *t.of)
+	case 'l':
+		out := []sx.S{"l"}
+		for i, n := 0, r.Intn(4); i < n; i++ {
+			if t.of.kind != 'N' && chance(r, 0.1) {
+				out = append(out, "null")
+			} else {
+				out = append(out, varValue(r, s, *t.of))
+			}
+		}
+		return out
 	}
-	return "null"
+	return scalarValue(r, s, t)
 }
 
 func genExecCase(r *rand.Rand, p *profile, id string) Case {
@@ -877,7 +953,7 @@ func genExecCase(r *rand.Rand, p *profile, id string) Case {
 	for c := 0; c < ncalls; c++ {
 		oi := infos[r.Intn(len(infos))]
 		name := oi.name
-		if nops > 1 && chance(r, p.pBadCall) {
+		if chance(r, p.pBadCall) {
 			if chance(r, 0.5) {
 				name = "-"
 			} else {
